@@ -250,18 +250,35 @@ public:
   {
     if (rng.chance(1, 3))
     {
-      std::vector<int> cand;
+      // a live object (result of an earlier call), preferably one that already has an operand's or the result's shape
+      std::vector<int> cand, same;
       for (auto& kv : heap)
-        if (kv.second.cls == cls && !operands.count(kv.first)) cand.push_back(kv.first);
+        if (kv.second.cls == cls && !operands.count(kv.first))
+        {
+          cand.push_back(kv.first);
+          bool like = R(kv.first) == rr && C(kv.first) == rc;
+          for (int id : operands) like = like || (R(kv.first) == R(id) && C(kv.first) == C(id));
+          if (like) same.push_back(kv.first);
+        }
+      if (!same.empty() && rng.chance(2, 3)) return same[rng.below(same.size())];
       if (!cand.empty()) return cand[rng.below(cand.size())];
     }
     size_t r, c;
-    switch (rng.below(5))
+    switch (operands.empty() ? rng.below(4) : rng.below(7))
     {
     case 0: r = 0; c = 0; break;
     case 1: r = rr; c = rc; break;                                   // already the right size
     case 2: r = rr + 1; c = rc + 1; break;                           // too large
     case 3: r = rr > 1 ? rr - 1 : 1; c = rc > 1 ? rc - 1 : 1; break; // too small
+    case 4:
+    case 5:
+    { // exactly the shape of one of the operands (a "resize only when needed" test must look at the RESULT's shape)
+      std::vector<int> ops(operands.begin(), operands.end());
+      int id = ops[rng.below(ops.size())];
+      r = R(id);
+      c = C(id);
+      break;
+    }
     default: r = dim(); c = dim(); break;
     }
     if (r == 0 || c == 0) r = c = 0;
